@@ -440,7 +440,11 @@ func (c *Client) SyncCollection(ctx context.Context, path string, query *SyncQue
 		p, err := resp.Path()
 		if err != nil {
 			if err, ok := err.(*internal.HTTPError); ok && err.Code == http.StatusNotFound {
-				ret.Deleted = append(ret.Deleted, p)
+				// One response may report several removed members
+				// (RFC 4918 section 14.24: href, href*, status)
+				for _, href := range resp.Hrefs {
+					ret.Deleted = append(ret.Deleted, href.Path)
+				}
 				continue
 			}
 			return nil, err
